@@ -28,7 +28,8 @@
 (***************************************************************************)
 EXTENDS Integers, Sequences, FiniteSets, TLC, Json
 
-CONSTANTS MaxOps,        \* maximal length of the edit script
+CONSTANTS FixU1,         \* TRUE = character ranges converted to byte columns (repaired), FALSE = compared as they are
+          MaxOps,        \* maximal length of the edit script
           MaxBlocks,     \* 1 or 2 blocks per file
           Layouts,       \* subset of {"line", "inline", "cont"}
           FixF1, FixDV1, FixDV2   \* TRUE = the repaired action, FALSE = the code as it is/was
@@ -62,16 +63,21 @@ MakesNew(x) == x \in {"K", "I", "M"}
 Lay(l) == CASE l = "line"   -> [tc0 |-> 6, tc1 |-> 46, cend |-> 50, cbeg |-> 0, slines |-> 1, elines |-> 1, len |-> 50, elen |-> 14]
             [] l = "inline" -> [tc0 |-> 6, tc1 |-> 46, cend |-> 53, cbeg |-> 5, slines |-> 1, elines |-> 1, len |-> 58, elen |-> 22]
             [] l = "cont"   -> [tc0 |-> 6, tc1 |-> 46, cend |-> 13, cbeg |-> 0, slines |-> 2, elines |-> 2, len |-> 50, elen |-> 17]
+            \* "mb": the "line" layout with 24 two-byte characters before the tag: CHARACTER columns below, the
+            \* tag's BYTE columns are 24 larger (mb); the character diff reports character indices
+            [] l = "mb"     -> [tc0 |-> 28, tc1 |-> 68, cend |-> 72, cbeg |-> 0, slines |-> 1, elines |-> 1, len |-> 72, elen |-> 14]
             \* "mltag": the start tag itself spans two lines; tc1 is the column of '>' on the SECOND line
             [] l = "mltag"  -> [tc0 |-> 6, tc1 |-> 25, cend |-> 32, cbeg |-> 0, slines |-> 2, elines |-> 1, len |-> 28, elen |-> 17]
 CodeLen == 6
 
+MbOf(l) == IF l = "mb" THEN 24 ELSE 0     \* extra bytes before the tag on the start-tag line
+
 (* Character ranges (0-based, half-open) produced by the character diff for each M kind.
    Edits sit >= 2 characters inside their region so that region edges stay out of the picture. *)
 Rng(kind, l) ==
-  CASE kind = "attr"   -> <<26, 27>>                         \* inside the start tag
+  CASE kind = "attr"   -> <<Lay(l).tc0 + 20, Lay(l).tc0 + 21>>   \* inside the start tag
     [] kind = "cmtB"   -> <<3, 4>>                           \* comment text before the tag
-    [] kind = "cmtA"   -> <<48, 49>>                         \* comment text after the tag
+    [] kind = "cmtA"   -> <<Lay(l).tc1 + 2, Lay(l).tc1 + 3>>     \* comment text after the tag
     [] kind = "post"   -> <<Lay(l).cend + 2, Lay(l).cend + 3>>   \* content after the start comment, same line
     [] kind = "endcmt" -> <<Lay(l).cbeg + 12, Lay(l).cbeg + 13>> \* inside the end-tag comment
     [] kind = "pre"    -> <<1, 2>>                           \* content before the end comment, same line
@@ -80,6 +86,7 @@ Rng(kind, l) ==
     [] kind = "full"   -> <<0, l>>                           \* unrelated old text: everything replaced (l = new length)
 
 KindsS(l) == IF l = "mltag" THEN {"attr", "cmtB", "full"}
+             ELSE IF l = "mb" THEN {"attr", "cmtA", "full"}
              ELSE {"attr", "cmtB", "cmtA", "full"} \cup (IF l = "inline" THEN {"post"} ELSE {})
 KindsC(l) == IF l = "mltag" THEN {"attr2", "cmtA2"} ELSE {}
 KindsE(l) == {"endcmt", "full"} \cup (IF l = "inline" THEN {"pre"} ELSE {})
@@ -238,26 +245,33 @@ Walk(d, bs, f1, f2) == WalkAll(d, bs, 1, <<>>, FALSE, 0, f1, f2)
 
 Geo(o, b) ==
   LET L == Lay(b.lay) IN
-  [tag0l |-> NewNo(o, b.ps), tag0c |-> L.tc0 + 1,
-   tag1l |-> IF b.lay = "mltag" THEN NewNo(o, b.ps + 1) ELSE NewNo(o, b.ps), tag1c |-> L.tc1 + 1,
-   cs_l  |-> NewNo(o, SLast(b)),  cs_c |-> L.cend + 1,
+  \* columns are BYTE columns (tree-sitter): the multi-byte prefix of layout "mb" shifts them by MbOf
+  [tag0l |-> NewNo(o, b.ps), tag0c |-> L.tc0 + 1 + MbOf(b.lay),
+   tag1l |-> IF b.lay = "mltag" THEN NewNo(o, b.ps + 1) ELSE NewNo(o, b.ps), tag1c |-> L.tc1 + 1 + MbOf(b.lay),
+   cs_l  |-> NewNo(o, SLast(b)),  cs_c |-> L.cend + 1 + MbOf(b.lay), mb |-> MbOf(b.lay),
    ce_l  |-> NewNo(o, EFirst(b)), ce_c |-> L.cbeg + 1]
 
 BIG == 1000000
+\* a character index of the start-tag line of an "mb" block as a byte index: the 24 two-byte characters
+\* occupy character columns 3..26.  The first coding compared character indices with byte columns
+\* (deviation U1); the repaired line_diff converts.
+Conv(g, c, r, u1) == IF u1 /\ g.mb > 0 /\ c.line = g.tag0l
+                 THEN (IF r <= 3 THEN r ELSE IF r >= 27 THEN r + g.mb ELSE 3 + 2 * (r - 3))
+                 ELSE r
 \* intersects_with_line_change (half-open content range)
-HitsContent(g, c) ==
+HitsContent(g, c, u1) ==
   /\ c.line >= g.cs_l /\ c.line <= g.ce_l
   /\ \/ c.whole
      \/ LET sc == IF c.line = g.cs_l THEN g.cs_c - 1 ELSE 0
             ec == IF c.line < g.ce_l THEN BIG ELSE g.ce_c - 1
-        IN c.r1 > sc /\ c.r0 < ec
+        IN Conv(g, c, c.r1, u1) > sc /\ Conv(g, c, c.r0, u1) < ec
 \* intersects_with_line_change_inclusive (closed tag range)
-HitsTag(g, c) ==
+HitsTag(g, c, u1) ==
   /\ c.line >= g.tag0l /\ c.line <= g.tag1l
   /\ \/ c.whole
      \/ LET sc == IF c.line = g.tag0l THEN g.tag0c - 1 ELSE 0
             ec == IF c.line < g.tag1l THEN BIG ELSE g.tag1c - 1
-        IN c.r1 > sc /\ c.r0 <= ec
+        IN Conv(g, c, c.r1, u1) > sc /\ Conv(g, c, c.r0, u1) <= ec
 
 \* core::slice::binary_search_by with the comparator of the unrepaired code (F1), over the
 \* sequence of comparator outcomes
@@ -275,10 +289,10 @@ AnyHit(hits, lines, startLine, linear) ==     \* hits[k]: does change k intersec
        /\ BS([k \in 1..Len(hits) |-> IF hits[k] THEN "EQ" ELSE IF lines[k] < startLine THEN "LT" ELSE "GT"],
              0, Len(hits))
 
-ContentModified(o, b, cs, linear) ==
-  LET g == Geo(o, b) IN AnyHit([k \in 1..Len(cs) |-> HitsContent(g, cs[k])], [k \in 1..Len(cs) |-> cs[k].line], g.cs_l, linear)
-TagModified(o, b, cs, linear) ==
-  LET g == Geo(o, b) IN AnyHit([k \in 1..Len(cs) |-> HitsTag(g, cs[k])], [k \in 1..Len(cs) |-> cs[k].line], g.tag0l, linear)
+ContentModified(o, b, cs, linear, u1) ==
+  LET g == Geo(o, b) IN AnyHit([k \in 1..Len(cs) |-> HitsContent(g, cs[k], u1)], [k \in 1..Len(cs) |-> cs[k].line], g.cs_l, linear)
+TagModified(o, b, cs, linear, u1) ==
+  LET g == Geo(o, b) IN AnyHit([k \in 1..Len(cs) |-> HitsTag(g, cs[k], u1)], [k \in 1..Len(cs) |-> cs[k].line], g.tag0l, linear)
 
 
 ----------------------------------------------------------------------------
@@ -343,15 +357,15 @@ IdealFrom(o, bs, k) ==
 
 Done == pc = "done"
 
-FlagsWith(o, b, cs, linear) == [content |-> ContentModified(o, b, cs, linear), tag |-> TagModified(o, b, cs, linear)]
-FlagsOf(o, b, cs) == FlagsWith(o, b, cs, FixF1)        \* the scan as coded
+FlagsWith(o, b, cs, linear, u1) == [content |-> ContentModified(o, b, cs, linear, u1), tag |-> TagModified(o, b, cs, linear, u1)]
+FlagsOf(o, b, cs) == FlagsWith(o, b, cs, FixF1, FixU1)        \* the scan as coded
 
 \* The design meets the contract -- checked with all repairs switched on and the ideal walk.
 DesignMeetsContract ==
   Done => \A n \in 1..Len(blocks) :
             LET b == blocks[n]
                 c == ContractOf(ops, b)
-                f == FlagsWith(ops, b, IdealFrom(ops, blocks, 1), TRUE)
+                f == FlagsWith(ops, b, IdealFrom(ops, blocks, 1), TRUE, TRUE)
             IN Meets(c.content, f.content) /\ Meets(c.select, f.content \/ f.tag)
 
 \* The walk as coded meets the contract (violated by DV1/DV2 when the switches are FALSE --
@@ -377,9 +391,11 @@ Emit == Done => PrintT(<<"CASE", ToJson(
            per |-> [n \in 1..Len(blocks) |->
                       [contract |-> ContractOf(ops, blocks[n]),
                        pred     |-> FlagsOf(ops, blocks[n], changes),
-                       lin      |-> FlagsWith(ops, blocks[n], changes, TRUE),
-                       fix1     |-> FlagsWith(ops, blocks[n], Walk(dl, blocks, TRUE, FixDV2), TRUE),
-                       fix2     |-> FlagsWith(ops, blocks[n], Walk(dl, blocks, FixDV1, TRUE), TRUE),
-                       fix12    |-> FlagsWith(ops, blocks[n], Walk(dl, blocks, TRUE, TRUE), TRUE),
-                       ideal    |-> FlagsWith(ops, blocks[n], IdealFrom(ops, blocks, 1), TRUE)]]])>>)
+                       lin      |-> FlagsWith(ops, blocks[n], changes, TRUE, FixU1),
+                       u1       |-> FlagsWith(ops, blocks[n], changes, TRUE, TRUE),
+                       fix1     |-> FlagsWith(ops, blocks[n], Walk(dl, blocks, TRUE, FixDV2), TRUE, FixU1),
+                       fix2     |-> FlagsWith(ops, blocks[n], Walk(dl, blocks, FixDV1, TRUE), TRUE, FixU1),
+                       fix12    |-> FlagsWith(ops, blocks[n], Walk(dl, blocks, TRUE, TRUE), TRUE, FixU1),
+                       idealc   |-> FlagsWith(ops, blocks[n], IdealFrom(ops, blocks, 1), TRUE, FixU1),
+                       ideal    |-> FlagsWith(ops, blocks[n], IdealFrom(ops, blocks, 1), TRUE, TRUE)]]])>>)
 =============================================================================
